@@ -86,6 +86,49 @@ func PathsTo(fn *ssa.Function, target *ssa.BasicBlock) (paths []CFGPath, ok bool
 				pc := PathCond{V: cond, Truth: i == 0}
 				if bo, isB := cond.(*ssa.BinOp); isB {
 					pc.X, pc.Y = resolvePhiOnPath(bo.X, blocks), resolvePhiOnPath(bo.Y, blocks)
+					// two integer constants once the result variables of an inlined helper are resolved along the path
+					if kx, okx := ConstInt(pc.X); okx {
+						if ky, oky := ConstInt(pc.Y); oky {
+							var outcome, known = false, true
+							switch bo.Op {
+							case token.LSS:
+								outcome = kx < ky
+							case token.LEQ:
+								outcome = kx <= ky
+							case token.GTR:
+								outcome = kx > ky
+							case token.GEQ:
+								outcome = kx >= ky
+							case token.EQL:
+								outcome = kx == ky
+							case token.NEQ:
+								outcome = kx != ky
+							default:
+								known = false
+							}
+							if known && outcome != (i == 0) {
+								continue
+							}
+						}
+					}
+					// a nil test of what is, on this path, a value known to be nil or non-nil (a constant, a fresh
+					// object, the result of a constructor that never returns nil) has one outcome only
+					if bo.Op == token.EQL || bo.Op == token.NEQ {
+						var other ssa.Value
+						if IsNilConst(pc.Y) {
+							other = pc.X
+						} else if IsNilConst(pc.X) {
+							other = pc.Y
+						}
+						if other != nil {
+							if n := nilness(other, nil, 0); n != 0 {
+								outcome := (n == 1) == (bo.Op == token.NEQ)
+								if outcome != (i == 0) {
+									continue
+								}
+							}
+						}
+					}
 				}
 				conds = append(conds, pc)
 				dfs(s)
